@@ -113,7 +113,7 @@ def h_standard(ctx, n, d, whiten, warton):
         want = [[g * c_ref[j][k] + ((1 - g) * (c_ref[j][j] + eps) if j == k else 0) for k in range(d)] for j in range(d)]
         for j in range(d):
             for k in range(d):
-                ctx.claim('warton_shrunk_covariance_%d%d' % (j, k), close(cov[j][k], want[j][k], 1e-6))
+                ctx.claim_poly('warton_shrunk_covariance_%d%d' % (j, k), cov[j][k], want[j][k])
     if ctx.symbolic:
         ctx.claim('value_is_the_normal_log_density_of_those',
                   r[0] == ctx.apply_uf('MVNLOGPDF%d' % d, list(x) + list(mean) + list(cov.reshape(-1))))
